@@ -30,8 +30,8 @@ def episodes(prop, tier, seed):
 
 
 def nontrivial(epi):
-    return len(epi.get("ones", [])) >= 2
+    return len(epi.get("runs", [])) >= 1
 
 
-RULE = "rsbig: episode = (length > 2^32, positions of the ones, stack) + rank/select battery; non-trivial = at least two ones"
-ASSUME = ["rsbig: vectors of 2^32 .. 2^33+ bits with at most a few hundred ones (512 MiB .. 1 GiB of lazily zeroed words)"]
+RULE = "rsbig: episode = (length > 2^32, positions of the ones, stack) + rank/select battery; non-trivial = at least one run of ones"
+ASSUME = ["rsbig: vectors of 2^32 .. 2^33+ bits given as at most a few hundred runs of ones: sparse (runs of length one) and dense (runs of billions of bits)"]
